@@ -17,10 +17,12 @@ FS_MUTATING = {'openat', 'open', 'creat', 'write', 'pwrite64', 'writev', 'copy_f
                'fchown', 'fchownat', 'chown', 'utimensat', 'sync_file_range', 'fallocate'}
 
 LINE_RE = re.compile(r'^(\w+)\((.*)$', re.S)
+TS_RE = re.compile(r'^(\d+\.\d+) ')
+DUR_RE = re.compile(r' <(\d+\.\d+)>$')
 
 
 class Sys:
-    __slots__ = ('name', 'args', 'ret', 'err', 'raw', 'unfinished', 'injected', 'idx', 'occ')
+    __slots__ = ('name', 'args', 'ret', 'err', 'raw', 'unfinished', 'injected', 'idx', 'occ', 't0', 't1')
 
     def __repr__(self):
         return '%s(%s) = %s %s' % (self.name, self.args[:120], self.ret, self.err or '')
@@ -38,10 +40,20 @@ def parse_thread_log(path):
                 continue
             if line.startswith('+++') or line.startswith('---'):
                 continue
+            t0 = t1 = None
+            mt = TS_RE.match(line)       # -ttt prefix
+            if mt:
+                t0 = float(mt.group(1))
+                line = line[mt.end():]
+                md = DUR_RE.search(line)  # -T suffix
+                if md:
+                    t1 = t0 + float(md.group(1))
+                    line = line[:md.start()]
             m = LINE_RE.match(line)
             if not m:
                 continue
             s = Sys()
+            s.t0, s.t1 = t0, t1
             s.name = m.group(1)
             rest = m.group(2)
             s.raw = line if len(line) < 600 else line[:600] + '...'
@@ -146,13 +158,15 @@ def find_op_thread(logprefix):
     return None, [], False, None, None, None
 
 
-def strace_run(argv, logprefix, inject=None, cwd=None, env=None, timeout=120, strsize=64):
+def strace_run(argv, logprefix, inject=None, cwd=None, env=None, timeout=120, strsize=64, extra=None):
     for fn in os.listdir(os.path.dirname(logprefix)):
         if fn.startswith(os.path.basename(logprefix) + '.'):
             os.remove(os.path.join(os.path.dirname(logprefix), fn))
     cmd = ['strace', '-ff', '-y', '-s', str(strsize), '-o', logprefix]
     if inject:
         cmd += ['-e', 'inject=' + inject]
+    if extra:
+        cmd += extra
     cmd += argv
     try:
         p = subprocess.run(cmd, cwd=cwd, env=env, stdout=subprocess.PIPE, stderr=subprocess.STDOUT, timeout=timeout)
